@@ -234,6 +234,10 @@ theorem generated_free_list_extend_writes_only_fresh_blocks (ps : Nat → Nat) (
     · right; exact ⟨cap + ext - 1, free, by omega, by omega, h⟩
     · left; exact h
 
+-- non-vacuity of `generated_page_area_inside_its_slices`: the page at slice 1 of a segment at 2^25, 8-byte blocks: the block area
+-- starts 32 bytes into the slice (3 blocks skipped, rounded to 16) and the reported size is the rest of the slice
+example : Gen._mi_segment_page_start_from_slice 1 33554432 (33554432 + 288 + 1 * 96) 8 1 = (33554432 + 65536 + 32, 65536 - 32) := by decide
+
 -- non-vacuity of the three statements above: a page area at 2^16, 2 blocks of 16 bytes handed out, 3 fresh ones, old free list 77
 example : GenL.mi_page_free_list_extend (fun _ => 65536) 2 77 1 16 3 0 =
     [("mi_block_set_next", [1, 65568, 65584]), ("mi_block_set_next", [1, 65584, 65600]), ("mi_block_set_next", [1, 65600, 65616]),
